@@ -1062,13 +1062,24 @@ def run_history_w(ops, work, tag="hw"):
             else:
                 outc = ims[i].apply(op)
         except Exception as ex:  # noqa: BLE001
-            outc = f"error:{type(ex).__name__}:{str(ex)[:120]}"
+            import traceback
+
+            outc = f"error:{type(ex).__name__}:{str(ex)[:120]} @ {traceback.format_exc().strip().splitlines()[-3][:120]}"
+        if any(im.ws is None for im in ims):
+            # a close / open that raised leaves no workspace to observe: the history ends here (the oracle reports it)
+            steps.append({"outcome": outc if outc.startswith("error") else "error:workspace-lost", "a": steps[-1]["a"] if steps else None, "b": steps[-1]["b"] if steps else None})
+            ops = ops[: len(steps)]
+            break
         steps.append({"outcome": outc, "a": {"mem": ims[0].dump_mem(), "file": ims[0].dump_file()},
                       "b": {"mem": ims[1].dump_mem(), "file": ims[1].dump_file()}})
     vals = []
     for im, p in zip(ims, paths):
-        im.ws.close()
-        vals.append(validate_geoh5(p))
+        try:
+            if im.ws is not None:
+                im.ws.close()
+            vals.append(validate_geoh5(p))
+        except Exception as ex:  # noqa: BLE001
+            vals.append([{"key": "file-unreadable", "what": f"{type(ex).__name__}: {str(ex)[:120]}"}])
         os.remove(p)
     return {"w": True, "ops_filled": ops, "steps": steps, "validations": [im.validations for im in ims], "final_validation": vals}
 
@@ -1099,7 +1110,28 @@ def wop_term(op):
     return f"On {i} ({cop_x(op)})"
 
 
+def world_stale_before(ops, steps, k, side_i):
+    """did an entity get created / copied over an already present flat node of workspace side_i before step k?"""
+    side = "ab"[side_i]
+    for j in range(1, k):
+        o = ops[j]
+        into = (o["op"] == "copy_x" and (1 - o["ws"]) == side_i) or (o["op"] == "create" and o["ws"] == side_i)
+        if into and steps[j][side] and steps[j - 1][side]:
+            had = {tuple(n["key"]) for n in steps[j - 1][side]["file"]["nodes"]}
+            now = {tuple(r["key"]) for r in steps[j][side]["mem"]} - {tuple(r["key"]) for r in steps[j - 1][side]["mem"]}
+            if had & now:
+                return True
+    return False
+
+
 def world_case_term(ops, steps):
+    # a re-open that RAISES after a stale-node re-use in that workspace (two resurrected objects carrying one property-group
+    # identifier: "Key already used" while loading) is a consequence of the recorded defect the loader model does not
+    # reproduce; such histories are compared up to that step
+    for k, (op, st) in enumerate(zip(ops, steps)):
+        if op["op"] == "reopen" and str(st["outcome"]).startswith("error") and world_stale_before(ops, steps, k, op["ws"]):
+            ops, steps = ops[:k], steps[:k]
+            break
     # same truncation rule as the single-workspace stream
     for k, (op, st) in enumerate(zip(ops, steps)):
         if op["op"] == "rm_ws" and st["outcome"] == "raised" and k > 0 and any(r.get("pgs") for side in ("a", "b") for r in steps[k - 1][side]["mem"]):
